@@ -108,7 +108,8 @@ def coq_rmember(stm, vm_spec, commit_encs, pj, chal, nonces, ops):
     ch = [int.from_bytes(c, "little") for c in chal] + [0] * (want - len(chal))
     y, z, es, e = ch[0], ch[1], ch[2:2 + rounds], ch[2 + rounds]
     undec = any(p.get("undecodable") for p in [pj["a"], pj["a1"], pj["b"]] + pj["li"] + pj["ri"])
-    prom = coq_list([coq_opt(None if p is None else str(int(p)) + "%N") for p in vm_spec["promises"]])
+    promises = (vm_spec.get("raw_fields") or {}).get("promises", vm_spec["promises"])        # statements written through their public fields
+    prom = coq_list([coq_opt(None if p is None else str(int(p)) + "%N") for p in promises])
     w = lambda x: limbs_of_int(x, 9)
     return ("(mkR " + " ".join([
         f"{stm['bits']}%nat", f"{stm['cap']}%nat", f"{stm['T']}%nat",
@@ -133,7 +134,8 @@ def verify_terms(spec, obs, vi):
     v = spec["verifies"][vi]
     o = obs["verifies"][vi]
     res = o["result"]
-    if res.startswith("unavailable") or res.startswith("panic"):
+    panicked = res.startswith("panic")
+    if res.startswith("unavailable") or (panicked and not spec.get("_beyond_constructors")):
         return None, res
     vms = v["vmembers"]
     n = len(vms)
@@ -207,7 +209,7 @@ def verify_terms(spec, obs, vi):
         coq_masks = coq_list([coq_opt(None if m is None else coq_list([lim(x) for x in m])) for m in cm])
         terms.append("(chk_verify " + " ".join([
             f"{MODES[v['mode']]}%N", coq_list(rms), coq_list([limbs_of_int(int.from_bytes(d, 'little'), 9) for d in draws]),
-            coq_list([f"{u}%N" for u in u64s]), coq_list([coq_rop(x) for x in wops]), coq_bool(zero), coq_bool(chunk_ok), coq_masks,
+            coq_list([f"{u}%N" for u in u64s]), coq_list([coq_rop(x) for x in wops]), coq_bool(zero), coq_bool(chunk_ok), coq_bool(panicked and last_started), coq_masks,
             coq_list(static), coq_list(["[" + ";".join(f"{p}%nat" for p in g) + "]" for g in groups]),
             coq_list([sc(x) for x in obs_dyn]),
         ]) + ")")
@@ -270,7 +272,8 @@ CODE_BITS = {1: "Ok/Err class", 2: "recovered masks", 4: "G_i/H_i (static) scala
              16: "per-proof transcript operations before the last challenge", 32: "weight-transcript operations",
              64: "guard order (the model refuses the batch at the statement/generator consistency checks, the implementation went on to the transcripts)",
              128: "per-proof transcript operations (incl. response scalars bound for the batch weight)",
-             256: "chunking of the batch (sizes of the internal chunks vs Model/VerifyTop.chunks_of)"}
+             256: "chunking of the batch (sizes of the internal chunks vs Model/VerifyTop.chunks_of)",
+             1024: "value / error / panic outcome of the three-valued model (Model/CheckedTop.verify_chunk_chk)"}
 
 
 def explain(code):
